@@ -44,7 +44,7 @@ def run(ctx, replay):
         scen = []
         n = 0
         for (depth, num) in ([(5, 30), (9, 50)] if quick else [(5, 200), (9, 400), (13, 300)]):
-            hs = ctx.generate(D, "Gen_RoomHist", "CONSTANTS\n  MaxLen = %d\nSPECIFICATION GSpec\nINVARIANT Emit\nCHECK_DEADLOCK FALSE\n" % depth,
+            hs = ctx.generate(D, "Gen_RoomHist", "CONSTANTS\n  MaxLen = %d\n  WithAttack = FALSE\nSPECIFICATION GSpec\nINVARIANT Emit\nCHECK_DEADLOCK FALSE\n" % depth,
                               "hist_%d" % depth, workers=1, simulate="num=%d" % num, depth=depth, timeout=300, limit=num)
             for h in hs:
                 n += 1
